@@ -126,6 +126,38 @@ func (p *Program) encodeUnit(c *Contract) *UnitResult {
 				lab = fmt.Sprintf("e%d", i+1)
 			}
 			goal := post.evalBool(en.Expr)
+			if len(c.Split) > 0 {
+				// one obligation per combination of dynamic types of the split parameters, plus the remainder
+				type combo struct {
+					name string
+					cond string
+				}
+				combos := []combo{{"", "true"}}
+				for _, pn := range c.Split {
+					pv, ok := f.params[pn]
+					if !ok {
+						continue
+					}
+					var next []combo
+					for _, cb := range combos {
+						for _, dt := range e.dispatchTypes() {
+							nm := strings.TrimPrefix(shortTypeName(dt), "Pobject_")
+							if cb.name != "" {
+								nm = cb.name + "," + nm
+							}
+							next = append(next, combo{nm, fmt.Sprintf("(and %s (= (i_tag %s) %d))", cb.cond, pv.S, e.typeTag(dt))})
+						}
+					}
+					combos = next
+				}
+				var all []string
+				for _, cb := range combos {
+					all = append(all, cb.cond)
+					e.oblige("post", fmt.Sprintf("%s#post[%s|%s]", c.Key(), lab, cb.name), lab, reach, fmt.Sprintf("(=> %s %s)", cb.cond, goal), en.Line)
+				}
+				e.oblige("post", fmt.Sprintf("%s#post[%s|other]", c.Key(), lab), lab, reach, fmt.Sprintf("(=> (not (or %s)) %s)", strings.Join(all, " "), goal), en.Line)
+				continue
+			}
 			e.oblige("post", fmt.Sprintf("%s#post[%s]", c.Key(), lab), lab, reach, goal, en.Line)
 		}
 		// frame
